@@ -11,7 +11,9 @@
 (***************************************************************************)
 EXTENDS Integers, Sequences, FiniteSets, TLC, Rat
 
-FlSets == {<<50, 100>>, <<0, 100, 300>>, <<50, 150, 350, 410>>}
+\* (180, 360, 45, 90, 255, 385: levels whose value in metres, divided by the library's factor again, does
+\* not give the level back exactly)
+FlSets == {<<50, 100>>, <<0, 100, 300>>, <<50, 150, 350, 410>>, <<0, 180, 360, 410>>, <<45, 90, 255, 385>>}
 Phases == {"climb", "cruise", "descent"}
 
 \* table values (shape rules of BADA tables: TAS depends on FL only; climb
@@ -42,11 +44,19 @@ Done == st = "done"
 (* evaluation on the half lattice: fl2 = 2*(k-1) at node k, odd between      *)
 (* nodes, -1 / 2n-1 outside; m2 likewise over the three masses, 100 = "min", *)
 (* 101 = "max"                                                               *)
-EvalCasesAll == UNION {[fls : {F}, a : {0, 1, 2}, b : {0, 1}, ph : Phases, cz : {-1, 0, 1, 2}, ord : Orders,
+\* the phases of a table need not cover the same levels (BADA: cruise starts higher than climb): cf = number
+\* of lowest levels the cruise sub-table lacks, dt = number of highest levels the descent sub-table lacks;
+\* fl2 is relative to the level list of the queried phase
+EvalCasesAll == UNION {[fls : {F}, a : {0, 1, 2}, b : {0, 1}, ph : Phases, cz : {-1, 0, 1, 2}, ord : Orders, cf : {0, 1}, dt : {0, 1},
                         fl2 : -1..(2 * Len(F) - 1), m2 : (-1..5) \cup {100, 101}] : F \in FlSets}
-\* all value shapes with the plain layout, all layouts with one value shape
-EvalCases == {x \in EvalCasesAll : (x.cz = 0 /\ x.ord = "asc") \/ (x.a = 1 /\ x.b = 1)}
-FlInside(x) == x.fl2 >= 0 /\ x.fl2 <= 2 * Len(x.fls) - 2
+\* all value shapes with the plain layout, all layouts with one value shape, all phase coverages with one value shape and the plain layout
+EvalCases == {x \in EvalCasesAll : /\ Len(x.fls) - x.cf >= 2 /\ Len(x.fls) - x.dt >= 2
+                                   /\ \/ (x.cz = 0 /\ x.ord = "asc" /\ x.cf = 0 /\ x.dt = 0)
+                                      \/ (x.a = 1 /\ x.b = 1 /\ x.cf = 0 /\ x.dt = 0)
+                                      \/ (x.a = 1 /\ x.b = 1 /\ x.cz = 0 /\ x.ord = "asc")}
+PhLen(x) == Len(x.fls) - (IF x.ph = "cruise" THEN x.cf ELSE IF x.ph = "descent" THEN x.dt ELSE 0)
+PhOff(x) == IF x.ph = "cruise" THEN x.cf ELSE 0
+FlInside(x) == x.fl2 >= 0 /\ x.fl2 <= 2 * PhLen(x) - 2
 MassDependent(ph) == ph \in {"climb", "cruise"}
 M2(x) == IF x.m2 = 100 THEN 0 ELSE IF x.m2 = 101 THEN 4 ELSE x.m2
 MassInside(x) == M2(x) >= 0 /\ M2(x) <= 4
@@ -55,7 +65,7 @@ Refused(x) == ~FlInside(x) \/ (MassDependent(x.ph) /\ ~MassInside(x))
 Lo(h) == h \div 2
 Hi(h) == (h + 1) \div 2
 Avg4(f(_, _), x) ==
-  LET i0 == Lo(x.fl2)  i1 == Hi(x.fl2)
+  LET i0 == Lo(x.fl2) + PhOff(x)  i1 == Hi(x.fl2) + PhOff(x)     \* indices into the full level list
       j0 == IF MassDependent(x.ph) THEN Lo(M2(x)) ELSE 1
       j1 == IF MassDependent(x.ph) THEN Hi(M2(x)) ELSE 1
   IN R(f(i0, j0) + f(i0, j1) + f(i1, j0) + f(i1, j1), 4)
@@ -70,10 +80,10 @@ EvalSpec == Start(EvalCases) /\ [][Step(EvalOut(c))]_vars
 
 IsNode(x) == x.fl2 % 2 = 0 /\ M2(x) % 2 = 0
 NodeExact == (Done /\ ~o.refused /\ IsNode(c)) =>
-   /\ o.tas = I(Tas(c.ph, c.fl2 \div 2))
-   /\ o.rocd = I(Rocd(c.ph, c.fl2 \div 2, IF MassDependent(c.ph) THEN M2(c) \div 2 ELSE 1, c.a))
-   /\ o.ff = I(Ff(c.ph, c.fl2 \div 2, IF MassDependent(c.ph) THEN M2(c) \div 2 ELSE 1, c.b))
-   /\ o.res = (IF c.ph = "cruise" THEN I(CruiseResidual(c.fl2 \div 2, c.cz)) ELSE I(0))
+   /\ o.tas = I(Tas(c.ph, c.fl2 \div 2 + PhOff(c)))
+   /\ o.rocd = I(Rocd(c.ph, c.fl2 \div 2 + PhOff(c), IF MassDependent(c.ph) THEN M2(c) \div 2 ELSE 1, c.a))
+   /\ o.ff = I(Ff(c.ph, c.fl2 \div 2 + PhOff(c), IF MassDependent(c.ph) THEN M2(c) \div 2 ELSE 1, c.b))
+   /\ o.res = (IF c.ph = "cruise" THEN I(CruiseResidual(c.fl2 \div 2 + PhOff(c), c.cz)) ELSE I(0))
 \* the listing order and the cruise residual of a table do not influence the
 \* values of the other phases
 LayoutIrrelevant == Done => (o.tas = EvalOut([c EXCEPT !.ord = "asc", !.cz = 0]).tas
@@ -82,7 +92,7 @@ LayoutIrrelevant == Done => (o.tas = EvalOut([c EXCEPT !.ord = "asc", !.cz = 0])
 NoExtrapolation == Done => (o.refused <=> Refused(c))
 \* bounded by the surrounding table values
 Bounded == (Done /\ ~o.refused) =>
-   LET i0 == Lo(c.fl2)  i1 == Hi(c.fl2) IN
+   LET i0 == Lo(c.fl2) + PhOff(c)  i1 == Hi(c.fl2) + PhOff(c) IN
    /\ Le(I(Tas(c.ph, i0)), o.tas) /\ Le(o.tas, I(Tas(c.ph, i1)))
 \* the symbolic masses mean the extreme table masses
 SymbolicMass == (Done /\ c.m2 \in {100, 101}) => o = EvalOut([c EXCEPT !.m2 = IF c.m2 = 100 THEN 0 ELSE 4])
